@@ -284,25 +284,38 @@ class GatedObserver:
         fcntl.ioctl(self.inotify_fd, termios.FIONREAD, buf)
         return struct.unpack("i", buf)[0]
 
+    def _await(self, gate, alive, what, timeout=15.0):
+        """Wait until the thread parks at `gate` again; returns False if the thread ended instead."""
+        t0 = _time.time()
+        while True:
+            if gate.await_arrival(timeout=0.05):
+                return True
+            if not alive():
+                # the thread may have parked just before we looked
+                if gate.await_arrival(timeout=0.05):
+                    return True
+                return False
+            if _time.time() - t0 > timeout:
+                raise Hang(f"{what} did not come back (errors={self.thread_errors})")
+
     def read(self, k=10 ** 6):
         """Let the reader thread take one read() of at most k records; returns the records it was handed."""
-        assert self._reader_parked
+        if not self._reader_parked:
+            return []
         n0 = len(self.raw_log)
         self.gate_poll.release(k)
-        if not self.gate_poll.await_arrival():
-            alive = self.reader_alive()
-            self._reader_parked = False
-            raise Hang(f"reader thread did not come back to poll() (alive={alive}, errors={self.thread_errors})")
+        if not self._await(self.gate_poll, self.reader_alive, "reader thread"):
+            self._reader_parked = False        # the buffer thread has exited (root deleted or crash)
         return self.raw_log[n0:]
 
     def emit(self):
         """Let the emitter thread consume one item of the buffer (must be available); returns the events delivered."""
-        assert self._emitter_parked
+        if not self._emitter_parked:
+            return []
         n0 = len(self.events)
         self.gate_emit.release()
-        if not self.gate_emit.await_arrival():
-            self._emitter_parked = False
-            raise Hang(f"emitter thread did not come back to read_event() (errors={self.thread_errors})")
+        if not self._await(self.gate_emit, self.emitter_alive, "emitter thread"):
+            self._emitter_parked = False       # the emitter stopped itself (root deleted) or crashed
         self.observer.event_queue.join()
         return self.events[n0:]
 
@@ -310,11 +323,11 @@ class GatedObserver:
         self.vclock.advance(units * self.UNIT)
 
     def reader_alive(self):
-        return any(t.name.startswith("Thread-") or "InotifyBuffer" in type(t).__name__ for t in threading.enumerate()
-                   if "InotifyBuffer" in type(t).__name__ and t.is_alive())
+        return any(type(t).__name__ == "InotifyBuffer" and t.is_alive() for t in threading.enumerate())
 
     def emitter_alive(self):
-        return any(e.is_alive() for e in self.observer.emitters)
+        return any(type(t).__name__ in ("InotifyEmitter", "InotifyFullEmitter") and t.is_alive()
+                   for t in threading.enumerate())
 
     # ------------------------------------------------------------------ shutdown
     def stop(self):
